@@ -1572,6 +1572,25 @@ pub fn suites_for(property: &str, thorough: bool) -> Vec<Suite> {
                 a.push(MOp::Req("cache", "x".to_string()));
                 out.push(Suite { f: group[0], f2: None, group, wash: true, prune_noops: false, alphabet: a, depth: d(3, 3) });
             }
+            // names that are at once a cache's name and a dependency / tag / event (of itself or of a neighbour)
+            let group = fam("selfdep");
+            if !group.is_empty() {
+                let mut a: Vec<MOp> = Vec::new();
+                for (i, _) in group.iter().enumerate() {
+                    a.push(MOp::CallN(i, 1));
+                }
+                let mut names: Vec<String> = group.iter().map(|f| f.name.to_string()).collect();
+                names.push("x".into());
+                for n in &names {
+                    a.push(MOp::Req("dep", n.clone()));
+                }
+                for f in group.iter().take(2) {
+                    a.push(MOp::Req("cache", f.name.to_string()));
+                }
+                a.push(MOp::Req("tag", group[4].name.to_string()));
+                a.push(MOp::Req("event", group[4].name.to_string()));
+                out.push(Suite { f: group[0], f2: None, group, wash: true, prune_noops: false, alphabet: a, depth: d(3, 4) });
+            }
         }
         "C15" => {
             let cands: Vec<&'static FnInfo> = fam("core").into_iter().filter(|f| f.flavour != Flavour::Thread && f.mem.is_none() && f.limit != Some(2)).collect();
